@@ -687,6 +687,10 @@ class EventBus:
 
     def _start(self) -> None:
         """Start the event bus if not already running"""
+        if self._is_running and self._runloop_task is not None and self._runloop_task.done():
+            # The run loop task has ended without running its own cleanup (it was cancelled before its first step):
+            # the bus is not running any more, events dispatched from now on need a new run loop
+            self._is_running = False
         if not self._is_running:
             try:
                 loop = asyncio.get_running_loop()
